@@ -138,6 +138,132 @@ def rule_R8_wild_closure(text):
     return text.replace('|_|', '|_e|'), n
 
 
+def rule_R17_ref_pattern_let_else(text):
+    """`let Some(&x) = E else { .. };`  ->  `let Some(x__ref) = E else { .. }; let x = *x__ref;`
+       `if let Some(&x) = E {`           ->  `if let Some(x__ref) = E { let x = *x__ref;`
+    (Verus has no `&` patterns)"""
+    n = 0
+    while True:
+        m = re.search(r'(if\s+)?let\s+Some\(\s*&\s*([A-Za-z_][A-Za-z_0-9]*)\s*\)\s*=', text)
+        if not m:
+            return text, n
+        is_if, var = bool(m.group(1)), m.group(2)
+        toks = rsx.tokenize(text)
+        if is_if:
+            # the block opening after the scrutinee
+            k = next(i for i, t in enumerate(toks) if t.a >= m.end())
+            while not (toks[k].k == rsx.P and toks[k].s == '{'):
+                if toks[k].k == rsx.P and toks[k].s in '([':
+                    k = rsx.match_close(toks, k)
+                k += 1
+            end = toks[k].b
+            text = text[:end] + ' let %s = *%s__ref;' % (var, var) + text[end:]
+            text = text[:m.start()] + 'if let Some(%s__ref) =' % var + text[m.end():]
+            n += 1
+            continue
+        idx = next(i for i, t in enumerate(toks) if t.a >= m.end() and t.k == rsx.ID and t.s == 'else')
+        j = idx + 1
+        while toks[j].k in (rsx.WS, rsx.COM):
+            j += 1
+        if not (toks[j].k == rsx.P and toks[j].s == '{'):
+            raise Unsupported('R17: let-else without block')
+        ce = rsx.match_close(toks, j)
+        k = ce + 1
+        while toks[k].k in (rsx.WS, rsx.COM):
+            k += 1
+        end = toks[k].b if (toks[k].k == rsx.P and toks[k].s == ';') else toks[ce].b
+        text = text[:end] + ' let %s = *%s__ref;' % (var, var) + text[end:]
+        text = text[:m.start()] + 'let Some(%s__ref) =' % var + text[m.end():]
+        n += 1
+
+
+def rule_R18_let_else_continue(text):
+    """Inside a loop body:   let PAT = E else { S; continue; };  REST
+       ->                     if let PAT = E { REST } else { S }
+    applied only when the `let` sits in tail position of the loop body (directly in it, or in a
+    branch of an if/else that is the last statement of the loop body), where the two are
+    equivalent.  Verus for-loops do not support `continue`."""
+    n = 0
+    guard = 0
+    while guard < 20:
+        guard += 1
+        toks = rsx.tokenize(text)
+        sg = rsx.sig(toks)
+        loop_bodies = set(b for (_k, b) in spec.find_loops(text, 0))
+        # map every '{' to its closer and parent
+        stack, parent, closer = [], {}, {}
+        for i in sg:
+            t = toks[i]
+            if t.k == rsx.P and t.s == '{':
+                parent[i] = stack[-1] if stack else None
+                stack.append(i)
+            elif t.k == rsx.P and t.s == '}' and stack:
+                closer[stack.pop()] = i
+        done = False
+        for pos, i in enumerate(sg):
+            t = toks[i]
+            if not (t.k == rsx.ID and t.s == 'let'):
+                continue
+            # find `else {` at depth 0 before the terminating ';'
+            j = pos + 1
+            els = None
+            while j < len(sg):
+                tj = toks[sg[j]]
+                if tj.k == rsx.P and tj.s in '([':
+                    j = sg.index(rsx.match_close(toks, sg[j])) + 1
+                    continue
+                if tj.k == rsx.P and tj.s in (';', '{', '}'):
+                    break
+                if tj.k == rsx.ID and tj.s == 'else' and toks[sg[j + 1]].s == '{':
+                    els = j
+                    break
+                j += 1
+            if els is None:
+                continue
+            eb = sg[els + 1]
+            ec = closer.get(eb)
+            if ec is None:
+                continue
+            inner = [k for k in sg if eb < k < ec]
+            if len(inner) < 2 or not (toks[inner[-2]].s == 'continue' and toks[inner[-1]].s == ';'):
+                continue
+            after = sg[sg.index(ec) + 1]
+            if toks[after].s != ';':
+                continue
+            # enclosing block of the let
+            encl = None
+            for b, c in closer.items():
+                if b < i < c and (encl is None or b > encl):
+                    encl = b
+            if encl is None:
+                continue
+            ok = toks[encl].a in loop_bodies
+            if not ok:
+                pb = parent.get(encl)
+                if pb is not None and toks[pb].a in loop_bodies:
+                    # the if/else chain containing `encl` must be the last statement of the loop body
+                    k = sg.index(closer[encl]) + 1
+                    while toks[sg[k]].k == rsx.ID and toks[sg[k]].s == 'else':
+                        k += 1
+                        while not (toks[sg[k]].k == rsx.P and toks[sg[k]].s == '{'):
+                            k += 1
+                        k = sg.index(closer[sg[k]]) + 1
+                    ok = sg[k] == closer[pb]
+            if not ok:
+                continue
+            pat_expr = text[toks[sg[pos + 1]].a:toks[sg[els]].a]       # PAT = E
+            s_block = text[toks[eb].b:toks[inner[-2]].a]                # S (without continue;)
+            rest = text[toks[after].b:toks[closer[encl]].a]
+            new = 'if let ' + pat_expr.rstrip() + ' {' + rest + '} else {' + s_block + '}\n'
+            text = text[:t.a] + new + text[toks[closer[encl]].a:]
+            n += 1
+            done = True
+            break
+        if not done:
+            break
+    return text, n
+
+
 class Unit:
     def __init__(self, name):
         self.name = name
@@ -213,6 +339,13 @@ class Unit:
                     txt, n = rule_R8_wild_closure(txt)
                     if n:
                         rew.append(('R8', n))
+                if kind == 'fn':
+                    txt, n = rule_R18_let_else_continue(txt)
+                    if n:
+                        rew.append(('R18', n))
+                    txt, n = rule_R17_ref_pattern_let_else(txt)
+                    if n:
+                        rew.append(('R17', n))
                 fs = self.specs.get((kind, path))
                 if mutate is not None:
                     txt = mutate(path, txt)
